@@ -152,6 +152,9 @@ class Window:
         self.R = [set(), set()]
         self.Wpre = [set(), set()]
         self.vac = [set(), set()]
+        self.vac_type = [{}, {}]    # vacated path -> 'dir' | 'file' (type of the object that left it)
+        self.reuses = 0             # how many ops of this window occupied a path vacated in this window
+        self.reused = set()         # those paths
         self.dirmoves = []          # (side, old, new)
         self.nops = [0, 0]
         self.dirty = set()          # objects created or written in this window (create/mkdir/write/rename destinations)
@@ -207,8 +210,19 @@ class World:
                         return "CRASH_THEN_TOUCH_NEW"
             if op == "rename" and tree.is_dir(a[0]) and any(self.path_style):
                 return "CRASH_DIRMOVE_PATHSTYLE"
+        if "PATH_REUSE" in H and win.reused:
+            for p in touched:
+                for r in win.reused:
+                    if under(p, r):
+                        return "PATH_REUSE"      # the new occupant of a re-used name is left alone for the rest of the window
         if "PATH_REUSE" in H and occ & win.vac[s]:
-            return "PATH_REUSE"
+            # narrowed (see DESIGN 9): when BOTH sides are id-style, re-using a vacated name with an object of the SAME
+            # type is fine; a different type, or any re-use when a side is path-style, is an open finding family
+            if any(self.path_style) or win.reuses:
+                return "PATH_REUSE"         # at most one (same-type, id/id) name re-use per window
+            for p in occ & win.vac[s]:
+                if win.vac_type[s].get(p) != self._occ_type(tree, op, a, p):
+                    return "PATH_REUSE"
         if "DIRMOVE_ISOLATED" in H:
             for (_ms, old, new) in win.dirmoves:
                 for p in touched:
@@ -235,10 +249,27 @@ class World:
                         return "XSIDE"
         return None
 
+    @staticmethod
+    def _occ_type(tree, op, a, p):
+        """type of the object that op puts at path p"""
+        if op == "mkdir":
+            return "dir"
+        if op == "create":
+            return "file"
+        if op == "rename":
+            src = a[0] + p[len(a[1]):]
+            return "dir" if tree.is_dir(src) else "file"
+        return None
+
     # ---- applying
     def apply(self, s, op, *a):
         tree = self.side[s]
         W, R, Wpre, vac, occ = touch_sets(tree, op, *a)
+        if occ & self.win.vac[s]:
+            self.win.reuses += 1
+            self.win.reused |= (occ & self.win.vac[s])
+        for p in vac:
+            self.win.vac_type[s][p] = "dir" if tree.is_dir(p) else "file"
         tree.apply(op, *a)
         if self.exp_valid:
             try:
